@@ -70,7 +70,7 @@ fn nums(v: &[BFieldElement]) -> String {
 
 fn go<T: BFieldCodec + Debug>(op: &str, s: &[BFieldElement]) -> String {
     match op {
-        "dec" => match T::decode(s) {
+        "dec" | "decv" => match T::decode(s) {
             Ok(v) => {
                 let e = v.encode();
                 let again = match T::decode(&e) {
